@@ -141,11 +141,6 @@ theorem lookup_insPure (hc : CmpLaw cmp) (e : Entry) (t : Node) (ks k' : Key) (h
 
 /-! ### allocation bookkeeping of `add` -/
 
-/-- the counter of live blocks that belongs to an allocator triple -/
-def _root_.CC.Mem.liveT (m : Mem) : Triple → Nat
-  | .conf => m.live
-  | .libc => m.liveLibc
-
 theorem allocT_fst_true (m : Mem) (tr : Triple) (h : (m.allocT tr).1 = true) :
     (m.allocT tr).2.liveT tr = m.liveT tr + 1 ∧ (m.allocT tr).2.fault = m.fault := by
   cases tr
